@@ -366,7 +366,12 @@ Inductive case :=
      stored delegation expiry, the entries the trees admitted (answer, denial, DNSKEY, DS), then after the
      parent withdrew: instant of the next query, whether it got the parent's NXDOMAIN, whether the old child was asked *)
 | CaseSec (ns ds t0 t1 t2 t3 : Z) (deleg : option Z) (entries : list (option (Z * Z * option Z)))
-          (t4 : Z) (nx child_asked : bool)
+          (dttl : Z) (derived : list Z)
+          (t4 : Z) (nx child_asked old_denial : bool)
+  (* ([dttl]: what the signed denial's own records allow the derived stores - RFC 8020 cut, RFC 8198 proof index - to
+     keep it for (ns); [derived]: the expiry of every record those stores filed for the zone under the second tree;
+     [old_denial]: after the withdrawal and the lease, a question below the denied name or a fresh name of the zone was
+     answered with the old child's proof) *)
   (* full pipeline, nested delegation tld. -> a.tld. -> s.a.tld. whose referral carries a partly glue-less NS
      set: per-level NS TTLs (s), number of provisional entries filed, bracket of an optional warm-up tree
      (tld. and a.tld. cached beforehand), the main tree's bracket split at the nameserver address lookup
@@ -391,13 +396,17 @@ Inductive case :=
 
      full pipeline, a CHAIN of CNAMEs: the question lies in zone 0, whose alias points into zone 1, ... whose alias
      points at the final name in zone n; tld. delegates every zone with its own lease; the cache layer chases each
-     alias with a sub-query under a forked request tree, nested.  Per zone k: NS TTL (s), the TTL (ns) the entry for
-     leg k's question is admitted with, and the shape of leg k's reply as leg k-1's chase sees it (records, NXDOMAIN;
-     ignored for k = 0).  Bracket of the tree; observed: stored delegation expiries (tld., zone 0 .. n), the entry of
-     every leg's question; then tld. re-points / withdraws zone [victim]: instant of the repeated question, whether the
-     reply carried data of the old servers of that zone (or of zones only reachable through its old alias), whether
-     they were asked *)
-| CaseChain (ttl_tld : Z) (legs : list (Z * Z * bool * bool)) (t0 t1 : Z)
+     alias with sub-queries under forked request trees, nested.  Per zone k: NS TTL (s), the TTL (ns) the entry for
+     leg k's question is admitted with, and the sub-queries leg k's own chase loop issued, in order - each with the
+     leg whose question it asked, whether it was answered from that leg's stored entry (a hit under a fresh tree; the
+     first sub-query of leg k is the resolution of leg k+1), and the shape of its reply as the loop saw it (records,
+     NXDOMAIN, "ends in a further alias without a record of the question's type").  Bracket of an optional warm-up
+     tree in which a client asked the final name itself beforehand (the last leg is then never resolved again: the
+     sub-query for it is answered from the stored entry, part of whose lease has run).  Bracket of the tree; observed:
+     stored delegation expiries (tld., zone 0 .. n), the entry of every leg's question; then tld. re-points /
+     withdraws zone [victim]: instant of the repeated question, whether the reply carried data of the old servers of
+     that zone (or of zones only reachable through its old alias), whether they were asked *)
+| CaseChain (ttl_tld : Z) (legs : list (Z * Z * list (nat * bool * bool * bool * bool))) (warm : option (Z * Z)) (t0 t1 : Z)
             (delegs : list (option Z)) (entries : list (option (Z * Z * option Z)))
             (victim : nat) (t4 : Z) (from_old old_asked : bool)
   (* full pipeline against the scripted world *)
@@ -503,39 +512,113 @@ Definition ch_zone (k : nat) : zone := [1%N; N.of_nat (10 + k)].
 Definition ch_q (k : nat) : zone := [1%N; N.of_nat (10 + k); 5%N].
 Definition ch_key (k : nat) : N := N.of_nat (S k).
 Definition ch_srv (k : nat) : N := N.of_nat (2 + k).
-Definition chain_leg := (Z * Z * bool * bool)%type.
+(* one sub-query of a leg's chase: (leg asked, hit, records, nx, more) *)
+Definition chain_hop := (nat * bool * bool * bool * bool)%type.
+Definition chain_leg := (Z * Z * list chain_hop)%type.
 
 (* the descents, outermost first (tld. is learned by leg 0 and found in the delegation cache by the others) *)
 Fixpoint chain_down (k : nat) (legs : list chain_leg) (t : Z) : list act :=
   match legs with
   | [] => []
-  | (ns, _, _, _) :: r =>
+  | (ns, _, _) :: r =>
       ASeed (N.of_nat k) (N.of_nat k) (ch_q k) false t :: al_ref (N.of_nat k) (ch_zone k) (ch_srv k) ns t :: chain_down (S k) r t
   end.
-(* the replies, innermost first: leg k's own chase has consumed leg k+1's reply, its entry is admitted under tree k,
-   then the chase of leg k-1 consumes leg k's reply *)
+
+Fixpoint entry_idx (key : N) (l : list aentry) : option nat :=
+  match l with
+  | [] => None
+  | e :: r => if (ae_key e =? key)%N then Some O else option_map S (entry_idx key r)
+  end.
+(* the fresh request tree of the i-th sub-query of leg k when it is answered from the cache *)
+Definition hit_tree (k i : nat) : N := N.of_nat (100 + 10 * k + i).
+
+(* the sub-queries of leg k's chase as the model's hops: the resolution of a deeper leg reports into that leg's tree
+   (which is complete by now); a sub-query answered from leg j's stored entry runs under a fresh tree that the hit
+   binds to the entry's lifetime (boundRequestToEntryLifetime) *)
+Fixpoint chain_hops (k i : nat) (hs : list chain_hop) (st : state) : state * list hop :=
+  match hs with
+  | [] => (st, [])
+  | (j, hit, records, nx, more) :: r =>
+      let tree := if hit then hit_tree k i else N.of_nat j in
+      let st1 := if hit then match entry_idx (ch_key j) (st_ans st) with
+                             | Some idx => step code_fx (AHit tree idx) st
+                             | None => st
+                             end
+                 else st in
+      let '(st2, l) := chain_hops k (S i) r st1 in
+      (st2, mk_hop tree false records nx false more :: l)
+  end.
+
+(* the replies, innermost first: the deeper legs run inside the first sub-query of leg k's chase; then the loop of
+   Cache.additionalAnswer ([chase]) over the sub-queries it issued; then leg k's entry is admitted under tree k *)
 Fixpoint chain_up (k : nat) (legs : list chain_leg) (t : Z) (st : state) : state :=
   match legs with
   | [] => st
-  | (_, ttl, records, nx) :: r =>
+  | (_, ttl, hs) :: r =>
       let st1 := chain_up (S k) r t st in
-      let st2 := step code_fx (AStore (N.of_nat k) (ch_key k) ttl t) st1 in
-      match k with
-      | O => st2
-      | S k' => chase code_fx chase_depth (N.of_nat k') [leg_hop (N.of_nat k) records nx] st2
+      let '(st2, l) := chain_hops k 0 hs st1 in
+      let st3 := chase code_fx chase_depth (N.of_nat k) l st2 in
+      step code_fx (AStore (N.of_nat k) (ch_key k) ttl t) st3
+  end.
+Definition chain_run (ttl_tld : Z) (legs : list chain_leg) (warm : option Z) (t : Z) : state :=
+  match warm with
+  | None =>
+      let down := match chain_down 0 legs t with
+                  | s :: r => s :: al_ref 0 al_ztld 1 ttl_tld t :: r
+                  | [] => []
+                  end in
+      chain_up 0 legs t (run code_fx down st_init)
+  | Some w =>
+      (* the warm-up tree resolved the final name by itself at w; the chain's own tree finds tld. in the delegation
+         cache and never descends into the last zone *)
+      let n := pred (length legs) in
+      match nth_error legs n with
+      | Some (ns, ttl, _) =>
+          let st := run code_fx [ASeed 0 0 (ch_q n) false w; al_ref 0 al_ztld 1 ttl_tld w;
+                                 al_ref 0 (ch_zone n) (ch_srv n) ns w; AStore 0 (ch_key n) ttl w] st_init in
+          chain_up 0 (removelast legs) t (run code_fx (chain_down 0 (removelast legs) t) (fresh_tree st))
+      | None => st_init
       end
   end.
-Definition chain_run (ttl_tld : Z) (legs : list chain_leg) (t : Z) : state :=
-  let down := match chain_down 0 legs t with
-              | s :: r => s :: al_ref 0 al_ztld 1 ttl_tld t :: r
-              | [] => []
-              end in
-  chain_up 0 legs t (run code_fx down st_init).
 
-Definition leg_carries (l : chain_leg) : bool := let '(_, _, records, nx) := l in records || nx.
-(* every leg j with k < j <= v hands something (records or its NXDOMAIN) to the leg above it: what leg v learned
-   reaches leg k's reply *)
-Definition linked (legs : list chain_leg) (k v : nat) : bool := forallb leg_carries (firstn (v - k) (skipn (S k) legs)).
+Definition hop_of (h : chain_hop) : hop := let '(_, _, records, nx, more) := h in mk_hop 0 false records nx false more.
+(* the loop of the model issues exactly the observed sub-queries: it does not stop before the last one and would not
+   issue another one after it (a reply without an alias to chase never enters the loop: nothing to compare) *)
+Definition loop_agrees (hs : list chain_hop) : bool :=
+  let l := map hop_of hs in
+  match hs with
+  | [] => true
+  | _ => (length (chase_used chase_depth (l ++ [mk_hop 0 false false false false false])) =? length hs)%nat
+  end.
+(* shape: the first sub-query of leg k asks leg k+1's question - a resolution, except for the last leg after a
+   warm-up, which is answered from its stored entry; every later one is answered from the entry of a deeper leg; the
+   last leg chases nothing *)
+Fixpoint chain_shape_ok (warm : bool) (k n : nat) (legs : list chain_leg) : bool :=
+  match legs with
+  | [] => true
+  | (_, _, hs) :: r =>
+      loop_agrees hs &&
+      match hs with
+      | [] => (S k =? n)%nat
+      | (j, hit, _, _, _) :: later =>
+          (S k <? n)%nat && (j =? S k)%nat && Bool.eqb hit (warm && (S j =? n)%nat) &&
+          forallb (fun h => let '(j', hit', _, _, _) := h in hit' && (k <? j')%nat && (j' <? n)%nat) later
+      end && chain_shape_ok warm (S k) n r
+  end.
+
+Definition hop_carries (h : chain_hop) : bool := let '(_, _, records, nx, _) := h in records || nx.
+(* what leg v learned reaches leg k's reply: through a run of sub-queries each of which handed something (records or
+   its NXDOMAIN) to the loop that issued it *)
+Fixpoint reaches (fuel : nat) (legs : list chain_leg) (k v : nat) : bool :=
+  (k =? v)%nat ||
+  match fuel with
+  | O => false
+  | S f => match nth_error legs k with
+           | Some (_, _, hs) => existsb (fun h => hop_carries h && reaches f legs (fst (fst (fst (fst h)))) v) hs
+           | None => false
+           end
+  end.
+Definition linked (legs : list chain_leg) (k v : nat) : bool := reaches (length legs) legs k v.
 
 Fixpoint chain_delegs_ok (lo hi : state) (k : nat) (ds : list (option Z)) : bool :=
   match ds with
@@ -560,7 +643,7 @@ Definition check_case (c : case) : bool :=
   | CaseTTLs ns ns_min ds ds_min =>
       (* the lease uses the minimum over each RRset (0 for an empty DS set) *)
       (match ns with [] => true | x :: r => fold_left Z.min r x =? ns_min end) &&
-      (match ds with [] => ds_min =? 0 | x :: r => fold_left Z.min r x =? ds_min end)
+      (rrset_min_ttl ds =? ds_min)
   | CaseEntry stored ttl cutu now rem bound =>
       let e := mk_ae 0%N stored ttl cutu [] in
       (ae_remaining e now =? rem) && (ae_bound e =? bound)
@@ -586,7 +669,7 @@ Definition check_case (c : case) : bool :=
       forallb (fun ze => obetween (deleg_exp lo (fst ze)) (snd ze) (deleg_exp hi (fst ze))) delegs &&
       forallb (fun ke => entry_between (entry_view lo (fst ke)) (snd ke) (entry_view hi (fst ke))) entries &&
       forallb (fun ia => nlist_eqb (asked_get (fst ia) alo) (snd ia) && nlist_eqb (asked_get (fst ia) ahi) (snd ia)) asked
-  | CaseSec ns ds t0 t1 t2 t3 deleg entries t4 nx child_asked =>
+  | CaseSec ns ds t0 t1 t2 t3 deleg entries dttl derived t4 nx child_asked old_denial =>
       let z := [1%N] in let q := [1%N; 2%N] in
       let tree t := run code_fx [ASeed 0 0 q false t; ARefer 0 (mk_ref z 1 true ns (Some ds) true t false t [] false true true t); AStore 0 1 0 t] st_init in
       let lo := tree t0 in let hi := tree t1 in
@@ -599,9 +682,18 @@ Definition check_case (c : case) : bool :=
                         | None, _ => true
                         | _, None => false
                         end) entries &&
-      (* after the lease the model walks up to the root *)
+      (* the derived denial stores file the second tree's denial under that tree's cut: [derived_end].  The second
+         tree descends through the cached delegation (its cut is the stored expiry) and consumes validation material
+         from the cache (the DNSKEY / DS entries: their ends may fold in as well): each record ends between the two *)
+      (let second t := run code_fx [ASeed 0 0 q false t] (fresh_tree (tree t)) in
+       let up := derived_end (second t1) 0%N t3 dttl in
+       let material := fold_left (fun acc e => match e with Some x => Z.min acc (entry_end x) | None => acc end)
+                                 (skipn 2 entries) (derived_end (second t0) 0%N t2 dttl) in
+       forallb (fun x => (material <=? x) && (x <=? up)) derived) &&
+      (* after the lease the model walks up to the root, and every derived record has ended *)
       (if (match deleg_exp hi z with Some e => e <=? t4 | None => true end)
-       then zone_eqb (m_zone (search_cache (st_dc hi) t4 q false)) [] && negb child_asked
+       then zone_eqb (m_zone (search_cache (st_dc hi) t4 q false)) [] && negb child_asked &&
+            (if forallb (fun x => x <=? t4) derived then negb old_denial else true)
        else true)
   | CaseNest ttl_tld ttl_a ttl_s nprov warm t0 h0 h1 t1 cancelled aborted delegs ans nsaddr t4 nx child_asked =>
       let lo := nest_run false ttl_tld ttl_a ttl_s nprov warm t0 h0 h1 t1 aborted in
@@ -627,10 +719,11 @@ Definition check_case (c : case) : bool :=
       (if ole (deleg_exp hi nest_zs) t4
        then strict_above (m_zone (search_cache (st_dc hi) t4 nest_q false)) nest_zs && negb child_asked
        else true)
-  | CaseChain ttl_tld legs t0 t1 delegs entries victim t4 from_old old_asked =>
-      let lo := chain_run ttl_tld legs t0 in
-      let hi := chain_run ttl_tld legs t1 in
+  | CaseChain ttl_tld legs warm t0 t1 delegs entries victim t4 from_old old_asked =>
+      let lo := chain_run ttl_tld legs (option_map fst warm) t0 in
+      let hi := chain_run ttl_tld legs (option_map snd warm) t1 in
       (length delegs =? S (length legs))%nat && (length entries =? length legs)%nat && (victim <? length legs)%nat &&
+      chain_shape_ok (match warm with Some _ => true | None => false end) 0 (length legs) legs &&
       match delegs with
       | dt :: ds => obetween (deleg_exp lo al_ztld) dt (deleg_exp hi al_ztld) && chain_delegs_ok lo hi 0 ds
       | [] => false
@@ -780,11 +873,14 @@ Definition spec_case (c : case) : bool :=
                             end
                         | _ => true
                         end) steps
-  | CaseSec ns ds t0 t1 t2 t3 deleg entries t4 nx child_asked =>
+  | CaseSec ns ds t0 t1 t2 t3 deleg entries dttl derived t4 nx child_asked old_denial =>
+      (* ... and what the derived denial stores keep of the zone's signed denial ends within the lease as well,
+         and within what the proof's own records allow; after the lease nothing of it is served *)
       let bound := t1 + Z.min (Z.min ns ds * 1000000000) twelve_hours in
       match deleg with Some e => e <=? bound | None => true end &&
       forallb (fun e => match e with Some x => entry_end x <=? bound | None => true end) entries &&
-      (if bound <=? t4 then nx && negb child_asked else true)
+      forallb (fun x => (x <=? bound) && (x <=? t3 + dttl)) derived &&
+      (if bound <=? t4 then nx && negb child_asked && negb old_denial else true)
   | CaseNest ttl_tld ttl_a ttl_s nprov warm t0 h0 h1 t1 cancelled aborted delegs ans nsaddr t4 nx child_asked =>
       (* the lease per level: observed (no later than the end of the bracket it was seen in) + min(NS TTL, 12 h),
          limited by every shallower one; nothing stored for a zone, and nothing learned through s.a.tld.
@@ -802,14 +898,18 @@ Definition spec_case (c : case) : bool :=
       match ans with Some x => entry_end x <=? l_s | None => true end &&
       match nsaddr with Some x => entry_end x <=? l_s | None => true end &&
       (if l_s <=? t4 then nx && negb child_asked else true)
-  | CaseChain ttl_tld legs t0 t1 delegs entries victim t4 from_old old_asked =>
-      (* leases from the published TTLs only; the entry of leg k's question holds what leg k learned through zone k
+  | CaseChain ttl_tld legs warm t0 t1 delegs entries victim t4 from_old old_asked =>
+      (* leases from the published TTLs only (what the warm-up tree observed runs from the warm-up); the entry of leg k's question holds what leg k learned through zone k
          and whatever the legs below handed up: it ends within the lease of every zone j >= k whose leg is linked to
          it, whatever any record's own TTL; after the victim zone's lease its old servers are history *)
       let capd ttl := Z.min (ttl * 1000000000) twelve_hours in
-      let l_tld := t1 + capd ttl_tld in
-      let lease k := match nth_error legs k with Some (ns, _, _, _) => Z.min l_tld (t1 + capd ns) | None => l_tld end in
       let n := length legs in
+      let obs_first := match warm with Some (_, w1) => w1 | None => t1 end in
+      let l_tld := obs_first + capd ttl_tld in
+      let lease k := match nth_error legs k with
+                     | Some (ns, _, _) => Z.min l_tld ((if (S k =? n)%nat then obs_first else t1) + capd ns)
+                     | None => l_tld
+                     end in
       (length delegs =? S n)%nat && (length entries =? n)%nat && (victim <? n)%nat &&
       match delegs with
       | dt :: ds => ole dt l_tld && forallb (fun k => ole (nth k ds None) (lease k)) (seq 0 n)
